@@ -16,6 +16,8 @@ CHECKS = {
         technique="TLA+ spec (CTree) + TLC exhaustive universe -> replay on real ctree.Tree -> TLC trace validation (CTreeTrace)"),
 }
 
+CACHE_ADD = (" After every call the driver also compares every notification it has handed to the cache earlier in the scenario with a copy taken before the call "
+             "(the caller's notification stays unmodified, also by later calls).")
 CACHE_NOTE = ("Trusts TLC, the TLA+ Json module and the driver's projection of protobuf messages to index paths and value tokens (no oracle logic in Go). "
               "Assumes a clock that does not run backwards, no re-Add of a known target, no atomic/plain leaf at the same exact path, no NaN/-0, no path-level origins (DESIGN note N1). "
               "Sequential use only (concurrency of the cache is covered through C04/C10/C15-race).")
@@ -174,14 +176,16 @@ ALL = ["C%02d" % i for i in range(1, 21)]
 # Third session (DESIGN section 13): what was added to the checks. text: appended to the claim; note: (old, new) replacements
 # in the note, or a string appended to it; technique: replaces the technique.
 ADDENDA = {
-    "C01": dict(text=" Pipeline.tla also has mixed notifications (one update and one delete in a message, the update possibly refused as a re-assertion) with two more mutants (the delete dropped; deletes skipped after a "
+    "C03": dict(text=CACHE_ADD + " Key values may contain the path separator."),
+    "C02": dict(text=" Key values may contain the path separator."),
+    "C01": dict(text=" The scripted targets may also end their first stream in an orderly way and come back with a new life (what they streamed before must be gone). Pipeline.tla also has mixed notifications (one update and one delete in a message, the update possibly refused as a re-assertion) with two more mutants (the delete dropped; deletes skipped after a "
                      "refused update). The scripted targets also send atomic containers, the replace idiom and the resync idiom (a stale re-assertion bundled with a delete); library and CLI queries carry "
                      "overlapping subscription paths, and a sub-tree is handed to gnmi_cli as a query flag with list keys in brackets (key values containing the delimiter)."),
     "C04": dict(text=" Further profiles: 'idle' (send timeout 1.5 s, silences of 2 s between the phases: an idle subscriber is not a stalled one), 'stall' (backlogs behind a slow subscriber), "
                      "removed targets that come back, and a held-back removal aimed at the registration window of a starting stream (hook stream.register)."),
-    "C05": dict(text=" An 'idle' profile adds POLL/STREAM subscribers that stay silent for longer than the send timeout between triggers."),
+    "C05": dict(text=" Key values may contain the path separator, and ONCE/static requests carry pairs of list entries whose keys are related as strings only (x, x/y). An 'idle' profile adds POLL/STREAM subscribers that stay silent for longer than the send timeout between triggers."),
     "C06": dict(text=" The 'remove' profile (streams that lose the race with the removal of their target, targets that come back) checks that nothing registered for a refused or ended stream is offered anything later."),
-    "C07": dict(text=" Also: subscriptions to a target the cache does not know (refused as unauthenticated first, if the caller is), and an 'idle' profile with an ACL in which the last thing a sender handled "
+    "C07": dict(text=" Whole-target removals happen under an ACL as well (the delete of a target a subscriber may not see is not for it either). Also: subscriptions to a target the cache does not know (refused as unauthenticated first, if the caller is), and an 'idle' profile with an ACL in which the last thing a sender handled "
                      "before a silence longer than the send timeout may be a denied target's notification (the stream must survive)."),
     "C08": dict(text=" SendTimer.tla specifies the send-timeout discipline of a sender (a timer runs only while a Send is in progress; a Send that never returns ends the RPC, the sync response included) "
                      "with three mutants that must be refuted (timer left running after the sync, armed before the ACL filter, sync sent without the timer); an 'idle' profile (silences longer than the send "
@@ -196,7 +200,7 @@ ADDENDA = {
                        "but its behaviours are not replayed on the code.")],
                 technique="TLA+ lock-level model (CTreeLocks.tla: refinement of the abstract map, race and deadlock freedom, 5 mutants) exhaustive TLC; linearizability-style trace validation with TLC "
                           "(CTreeLin.tla over CTree.tla) of recorded histories and duels + Go race detector as run-time monitor"),
-    "C11": dict(text=" In addition EVERY schedule of a set of small programs (1-2 producers, a consumer, a closer) is executed on the real queue under a gate scheduler that parks each goroutine before every "
+    "C11": dict(text=" Sequential sequences include Next with an already cancelled context while items are pending; 'duels' (producers released together by a spin barrier inserting the same item) are run by the ten thousand and their distinct outcomes validated. In addition EVERY schedule of a set of small programs (1-2 producers, a consumer, a closer) is executed on the real queue under a gate scheduler that parks each goroutine before every "
                      "call and at the three hook points and lets exactly one run at a time (stateless depth-first search, about 11 000 schedules in the quick tier), each run validated by CoalesceLin.",
                 note=" The small programs are enumerated exhaustively at the granularity of the gates (the steps of CoalesceChan.tla); a goroutine released from the next.empty gate that has not come back within "
                      "2 ms is taken to be blocked in Next's select.",
@@ -204,19 +208,19 @@ ADDENDA = {
                           "(CoalesceLin), incl. bounded exhaustive schedule enumeration on the real queue (gate scheduler)"),
     "C12": dict(text=" Every notification vector is followed by a full query and a later wildcard delete (the delete notifications are built from whatever the vector stored); every subscribe-request vector "
                      "is run against a server with and without statistics."),
-    "C13": dict(text=" Manager.tla now has incarnations (Add of the same name after or, for the mutant, during a Remove; invariant OneLife; 4 mutants). The driver has a second controller goroutine racing Add "
+    "C13": dict(text=" Also scripted: responses with nothing in them as first message of a stream, the collector's Reconnect RPC (collector.Server in front of Manager.Reconnect), and a back-off observation (with a retry delay of an hour no further attempt within 1.5 s of the first failure). Manager.tla now has incarnations (Add of the same name after or, for the mutant, during a Remove; invariant OneLife; 4 mutants). The driver has a second controller goroutine racing Add "
                      "against Remove, slow callbacks, and per-target receive-timeout overrides (with and without a manager-wide default); ManagerTrace accepts concurrent calls, infers where the old "
                      "incarnation ends and the new begins, requires a silent session to be replaced when a timeout is in force and a cause (stream ended by the target, Reconnect/Remove) for every Reset when none is."),
-    "C15": dict(text=" Cache-level latency stage: a cache created with latency windows under a manual clock; after every periodic refresh the exported meta/latency/window/<w>/{avg,max,min} leaves are read "
+    "C15": dict(text=" The concurrent stage uses millisecond latency windows (covered, sliding and exporting within a scenario); the meta profile includes deletes addressed to the cache's own leaf-accounting leaves (found and repaired 27c270d). Cache-level latency stage: a cache created with latency windows under a manual clock; after every periodic refresh the exported meta/latency/window/<w>/{avg,max,min} leaves are read "
                      "back and must lie between the extremes of the latencies of the target's own post-sync updates (CacheLatTrace.tla).",
                 technique="TLA+ specs (Cache counters: CacheMC CountersInv/LatestInv; Latency.tla Bounded/Window with mutants) exhaustive TLC + trace validation on real cache.Cache (CacheTrace, CacheLatTrace), "
                           "latency.Latency (LatencyTrace) and concurrent executions under the race detector (CacheConcTrace)"),
     "C16": dict(text=" Requests naming a dialer the manager does not have are generated (a dial that fails at once); ConnectionTrace tracks the identity of the last failed dial so that a failed entry "
                      "that lingers is rejected; Connection.tla has a third mutant (bad_dialer_lingers)."),
-    "C17": dict(text=" Request names may coincide with target names (independent key spaces)."),
-    "C18": dict(text=" Attempts may fail with errors that wrap context.Canceled/DeadlineExceeded while the client's context is alive, and ReconnectTrace requires that Subscribe does not return before Close "
+    "C17": dict(text=" Revisions are also spread over the whole int64 range (record revisions are ranks - the specification only compares - and far-stale configurations come back). Request names may coincide with target names (independent key spaces)."),
+    "C18": dict(text=" Also: Subscribe contexts that carry a deadline (Subscribe returns by itself, Close afterwards), and a further Subscribe on a client that has been closed (must return). Attempts may fail with errors that wrap context.Canceled/DeadlineExceeded while the client's context is alive, and ReconnectTrace requires that Subscribe does not return before Close "
                      "has been called (keeps resubscribing); the real-Impl scenarios include unreachable targets (silent listener, refused port) with a 30 s connection timeout, during which Close must return promptly."),
-    "C20": dict(text=" String-list (leaf-list) values - random sub-lists or rotating options - are generated and specified. Second stage: the repository's own fake gNMI agent (testing/fake/gnmi agent.go/client.go, "
+    "C20": dict(text=" Configurations may contain an explicit sync value written like the injected marker. String-list (leaf-list) values - random sub-lists or rotating options - are generated and specified. Second stage: the repository's own fake gNMI agent (testing/fake/gnmi agent.go/client.go, "
                      "which builds the queue and injects the sync marker itself) streams further configurations over gRPC, twice each, and the responses read off the wire are validated by the same specification.",
                 note=[("string-list values and FixedQueue are not covered", "the FixedQueue is not covered; the agent stage uses STREAM subscriptions without delays")]),
 }
